@@ -8,6 +8,7 @@ mod drive;
 mod envdrive;
 mod feedrive;
 mod gallery;
+mod genledger;
 mod js;
 mod keys;
 mod lj;
@@ -215,6 +216,13 @@ fn cmd_universe(a: &Args) {
     println!("{}", json!({"records": n}));
 }
 
+fn cmd_genledger(a: &Args) {
+    let mut out = Out::new(&a.s("out", "genledger.ndjson"));
+    genledger::genledger(&mut out, &a.s("tag", "gen_ledger"), &a.s("in", "gen.ndjson"), a.u64("part", 0) as usize, a.u64("of", 1) as usize);
+    let n = out.finish();
+    println!("{}", json!({"records": n}));
+}
+
 fn cmd_env(a: &Args) {
     let mut out = Out::new(&a.s("out", "env.ndjson"));
     envdrive::env(&mut out, a.u64("seed", 1), a.u64("n", 300));
@@ -281,6 +289,7 @@ fn main() {
         Some("tips") => cmd_tips(&a),
         Some("env") => cmd_env(&a),
         Some("universe") => cmd_universe(&a),
+        Some("genledger") => cmd_genledger(&a),
         Some("boundary") => cmd_boundary(&a),
         Some("dosc") => cmd_dosc(&a),
         Some("feemult") => cmd_feemult(&a),
